@@ -45,6 +45,8 @@ var staticFaults = []staticFiller{
 var staticGood = []staticFiller{
 	{"key", "str"}, {"upper(value)", "str"}, {"'lit'", "str"}, {"(key + 'x')", "str"}, {"str(strlen(key))", "str"},
 	{"1", "num"}, {"strlen(value)", "num"}, {"(strlen(key) + 2)", "num"}, {"1.5", "num"}, {"int('7')", "num"},
+	// variadic functions called with exactly their minimum number of arguments
+	{"join(',', key)", "str"}, {"join('-', 'a')", "str"}, {"len(list(strlen(key)))", "num"}, {"len(int_list(1))", "num"}, {"len(float_list(1.5))", "num"}, {"len(ilist(2))", "num"}, {"len(flist(2))", "num"},
 	{"(key = 'a')", "bool"}, {"is_int(value)", "bool"}, {"(strlen(key) > 1)", "bool"}, {"!(key ^= 'a')", "bool"}, {"(value in ('1', 'x'))", "bool"},
 }
 
